@@ -832,9 +832,15 @@ fn expr_lex(interp: &mut Interp, info: &mut ExprInfo) -> DatumResult {
     // mistake, which will eventually cause a syntax error.
 
     if !p.is('+') && !p.is('-') {
-        if expr_looks_like_int(&p) {
-            // There's definitely an integer to parse; parse it.
-            let token = util::read_int(&mut p).unwrap();
+        // An integer token, if there is one ("0x" without digits looks like an integer
+        // but is not one); otherwise possibly a floating-point token.
+        let int_token = if expr_looks_like_int(&p) {
+            util::read_int(&mut p)
+        } else {
+            None
+        };
+
+        if let Some(token) = int_token {
             let int = Value::get_int(&token)?;
             info.token = VALUE;
             info.expr = p;
@@ -1291,19 +1297,19 @@ fn expr_parse_string(string: &str) -> DatumResult {
             // FIRST, skip leading whitespace.
             p.skip_while(|c| c.is_whitespace());
 
-            // NEXT, get the integer token from it.  We know there has to be something,
-            // since it "looks like int".
-            let token = util::read_int(&mut p).unwrap();
+            // NEXT, get the integer token from it, if there is one ("0x" looks like
+            // an integer but has no digits).
+            if let Some(token) = util::read_int(&mut p) {
+                // NEXT, did we read the whole string?  If not, it isn't really an integer.
+                // Otherwise, drop through and return it as a string.
+                p.skip_while(|c| c.is_whitespace());
 
-            // NEXT, did we read the whole string?  If not, it isn't really an integer.
-            // Otherwise, drop through and return it as a string.
-            p.skip_while(|c| c.is_whitespace());
-
-            if p.at_end() {
-                // Can return an error if the number is too long to represent as a
-                // MoltInt.  This is consistent with Tcl 7.6.  (Tcl 8 uses BigNums.)
-                let int = Value::get_int(&token)?;
-                return Ok(Datum::int(int));
+                if p.at_end() {
+                    // Can return an error if the number is too long to represent as a
+                    // MoltInt.  This is consistent with Tcl 7.6.  (Tcl 8 uses BigNums.)
+                    let int = Value::get_int(&token)?;
+                    return Ok(Datum::int(int));
+                }
             }
         } else {
             // FIRST, see if it's a double. Skip leading whitespace.
